@@ -92,3 +92,25 @@ def huge_repetitions(case, msg):
     """F8: recurrence text whose repetition count has 9 or more digits; the only symptom is the time limit."""
     text = case.meta.get("text", "")
     return bool(re.match(r"^R\d{9,}/", text)) and ("HANG" in msg or "hang" in msg)
+
+
+def unix_seconds_float_form(case, msg):
+    """F16: seconds_since_unix_epoch of a point written in an hour-only / hour:minute (fractional precision)
+    form: the distance to the epoch is computed in float hours/minutes, so a whole-second instant can come out
+    a hair below the integer and floor one second low (or, for a non-whole instant, land on the neighbouring
+    integer).  Only an error of exactly one second on such a form is this class."""
+    line = case.lines[0] if case.lines else ""
+    if not line.startswith("tounix "):
+        return False
+    p = case.meta.get("p", "").split()
+    if not p:
+        return False
+    form = p[{"C": 4, "O": 3, "W": 4}[p[0]]]
+    if form not in ("H", "M"):
+        return False
+    out = (case.impl or [""])[0]
+    model = (case.model or [""])[0]
+    try:
+        return abs(int(out) - int(model)) == 1
+    except ValueError:
+        return False
